@@ -65,6 +65,7 @@ func vxKillAt(k int)
 func vxOps() int
 func vxFSPut(path string, kind int, id int)
 func vxFSMkdirAll(path string)
+func vxFSDelete(path string)
 func vxFSPutData(path string, data string)
 func vxFSPutLines(path string, lines []string)
 func vxFSKind(path string) int
